@@ -225,7 +225,8 @@ fn fd_passing() -> RunResult {
             payload: [1usize, 5, 64, 300][sim::choose("payload.len", 4)],
             fds: [0usize, 1, 1, 2, 3, 5][sim::choose("fds", 6)],
             // (sizes that are no multiple of the alignment too: padding after the last message is part of its space)
-            slack: [0usize, 1, 5, 8, 24, 40][sim::choose("ctl.slack", 6)],
+            // (20, 21: room for the header and data of one more small message, not for its padding)
+            slack: [0usize, 1, 5, 8, 20, 21, 24, 40][sim::choose("ctl.slack", 8)],
             tx: if sim::flip("tx.vectored", 1, 3) { TxS::Vectored } else { TxS::Plain },
             pause: sim::range("tx.pause", 0, 30),
         })
@@ -283,11 +284,11 @@ fn fd_passing() -> RunResult {
                             let mut with_extra = list.clone();
                             let need = if fds.is_empty() { 0 } else { space(4 * fds.len()) };
                             let cap = (need + m.slack).max(space(0));
-                            if cap - need < space(8) {
-                                with_extra.push((libc::SOL_SOCKET, libc::SCM_RIGHTS, vec![0xff; 8]));
+                            if cap - need < space(4) {
+                                with_extra.push((libc::SOL_SOCKET, libc::SCM_RIGHTS, vec![0xff; 4]));
                             }
                             let body = stream[at..at + m.payload].to_vec();
-                            let res: std::io::Result<usize> = with_cap!(cap, [16, 24, 25, 29, 32, 33, 37, 40, 41, 45, 48, 56, 64, 72, 80], |N| {
+                            let res: std::io::Result<usize> = with_cap!(cap, [16, 20, 21, 24, 25, 29, 32, 33, 37, 40, 41, 44, 45, 48, 52, 53, 56, 60, 61, 64, 72, 80], |N| {
                                 let ctl = build::<N>(&errs, &what, &with_extra);
                                 match m.tx {
                                     TxS::Plain => tx.write_with_ancillary(body, ctl).await.0,
@@ -519,7 +520,7 @@ fn udp_info() -> RunResult {
             tos: (sim::range("tos", 0, 63) as u8) << 2,
             tos_byte: !v6 && sim::flip("tos.byte", 1, 2),
             pktinfo: sim::choose("pktinfo", 3) as u8,
-            slack: [0usize, 1, 5, 8, 24][sim::choose("ctl.slack", 5)],
+            slack: [0usize, 1, 5, 8, 20, 21, 24][sim::choose("ctl.slack", 7)],
             tx: sim::choose("tx.kind", 4) as u8,
         })
         .collect();
@@ -580,7 +581,7 @@ fn udp_info() -> RunResult {
                             if m.slack < space(4) {
                                 with_extra.push((lvl, ty_tos, vec![0xff; 4]));
                             }
-                            let res: std::io::Result<usize> = with_cap!(cap, [24, 25, 29, 32, 48, 56, 57, 61, 64, 65, 69, 72, 80, 88], |N| {
+                            let res: std::io::Result<usize> = with_cap!(cap, [24, 25, 29, 32, 44, 45, 48, 56, 57, 61, 64, 65, 69, 72, 76, 77, 80, 84, 85, 88], |N| {
                                 let ctl = build::<N>(&errs, &what, &with_extra);
                                 match m.tx {
                                     0 => tx.send_msg(d.clone(), ctl, rx_addr).await.0,
